@@ -29,7 +29,10 @@ def main():
             raise
         res = {"verdict": "INCONCLUSIVE", "why": "encoder cannot cover this code: %s: %s" % (type(e).__name__, e)}
     out.update(res)
-    out["twin"] = "sat"        # token constraints alone are satisfiable by construction (any string over the alphabet)
+    out.setdefault("twin", "unknown")
+    if out.get("verdict") == "PROVED" and out["twin"] != "sat":
+        out["verdict"] = "INCONCLUSIVE"
+        out["why"] = "vacuous: constraints without the negated property are not satisfiable (" + str(out["twin"]) + ")"
     out["message"] = res.get("what", "")
     out["wall_total"] = round(time.time() - t0, 2)
     out.setdefault("secs", 0)
